@@ -173,6 +173,7 @@ func getServer() *fileServer {
 				return
 			}
 			w.Header().Set("Content-Type", "application/octet-stream")
+			w.Header().Set("Connection", "close") // every helm getter owns a transport: do not pile up idle connections
 			w.Write(b)
 		}))
 		srv = s
@@ -624,6 +625,10 @@ func run(cs core.Case, verbose bool) core.Result {
 		return (n + budget - 1) / budget
 	}
 
+	fullEvery := 16
+	if d.Tier == "thorough" {
+		fullEvery = 64
+	}
 	switch d.Group {
 	case "archive":
 		st := stride(len(w.archive), 300)
@@ -649,7 +654,7 @@ func run(cs core.Case, verbose bool) core.Result {
 					det := func() string {
 						return fmt.Sprintf("archive %s (%d bytes, signed via %s): %s at offset %d (bit %d) -> %d bytes, sha256 %s (signed %s); provenance and keyring untouched", w.base, len(w.archive), w.via, kind, pos, bit, len(m), digest(m), w.sum)
 					}
-					full := (pos/st)%16 == 0
+					full := (pos/st)%fullEvery == 0
 					c.verifyPair("archive", kind, archivePath, w.sigA, w.ringA, false, true, full, digest(m), det)
 					if full && kind != "truncate" {
 						c.download("archive", kind, w.base, m, w.prov, w.ringA, false, true, digest(m), det)
@@ -701,7 +706,7 @@ func run(cs core.Case, verbose bool) core.Result {
 					if bytes.Equal(m, w.prov) {
 						continue
 					}
-					c.provMutant(p, kind, m, origBlk, (pos/st)%24 == 0, func() string {
+					c.provMutant(p, kind, m, origBlk, (pos/st)%(fullEvery*3/2) == 0, func() string {
 						ctx := w.prov[max(0, pos-12):min(len(w.prov), pos+12)]
 						return fmt.Sprintf("provenance of %s (signed via %s): %s at offset %d (bit %d), context %q; archive and keyring untouched", w.base, w.via, kind, pos, bit, ctx)
 					})
